@@ -278,8 +278,9 @@ def _morph_post(ctx):
         return
     if not ents:
         classes.append("C14:morph:empty")
-        if ctx.exc is None:
-            REC.violation(PROP, "morph", "morph", case, "morph of empty tiers must raise, it returned %s" % desc(ctx.result, None), sig, mech)
+        # D14b: two operands without entries may be refused or answered with an entry-less tier - never with entries
+        if ctx.exc is None and (not hasattr(ctx.result, "entries") or len(ctx.result.entries) != 0):
+            REC.violation(PROP, "morph", "morph", case, "morph of tiers without entries returned %s" % desc(ctx.result, None), sig, mech)
         else:
             REC.held("morph", sig, classes, case)
         return
